@@ -1,5 +1,5 @@
 """Texts of the claims made in MANIFEST.json, per property."""
-HOOK_COMMITS = ['78ce041', '65be38d', '036e882', '4be9113']
+HOOK_COMMITS = ['78ce041', '65be38d', '036e882', '4be9113', '00cc1df']
 
 NOT_APPLICABLE = {}
 
@@ -140,5 +140,17 @@ CLAIMS = {
                 'dropping unsynced data), reopened, and must equal the model reopen of some batch prefix.',
         'note': TB + 'pebble\'s atomic-batch / prefix-durability contract is an assumption that the correspondence validates, not a theorem; the radius clause inherits the C06 little-endian known finding.',
         'technique': 'Lean 4 invariant proof over batch prefixes + crash-point enumeration on the real store (correspondence as a prefix relation)',
+    },
+    'C03': {
+        'text': 'Lean 4 theorems about an executable model of ValidateHeaderAndProof for EVERY hash function, every set of trusted accumulators, '
+                'header hash, block number, slot and proof: honest proofs (model of history.BuildProof; any opening of a historical root / summary) verify in all '
+                'four eras; an accepted proof implies that the header hash is the leaf committed at the position fixed by the block number / the slot under every '
+                'opening of the trusted root, or else an explicit hash collision or leaf pre-image is constructed; at most one (hash, sibling list) is accepted per '
+                'position (altered sibling / other header => collision); accepted size = size of the number\'s era and only that era\'s accumulator matters; '
+                'out-of-range positions give an error and never a panic in the bounds-checked model, and provably a panic in the code as it is. The model is tied '
+                'to the Go code on every run by step equality on ~3.5k cases over the real validator, accumulator, prover and zrnt beacon structures with a Lean SHA-256.',
+        'note': TB + 'SHA-256 collision resistance is not assumed (binding form); keccak/RLP of the header is outside the model (it sees number and hash); '
+                'byte-level slicing of the proof containers is executable model code covered by correspondence only; the oracle is a fixed answer per table set-up.',
+        'technique': 'Lean 4 proof (induction over Merkle branches and trees, decision logic of the dispatcher) + differential correspondence with spec-side verdicts',
     },
 }
